@@ -265,6 +265,12 @@ impl GrafeoDB {
                 WalRecord::RemoveNodeLabel { id, label } => {
                     store.remove_label(*id, label);
                 }
+                WalRecord::RemoveNodeProperty { id, key } => {
+                    store.remove_node_property(*id, key);
+                }
+                WalRecord::RemoveEdgeProperty { id, key } => {
+                    store.remove_edge_property(*id, key);
+                }
                 WalRecord::TxCommit { .. }
                 | WalRecord::TxAbort { .. }
                 | WalRecord::Checkpoint { .. } => {
@@ -1007,7 +1013,16 @@ impl GrafeoDB {
     ///
     /// Returns true if the property existed and was removed, false otherwise.
     pub fn remove_node_property(&self, id: grafeo_common::types::NodeId, key: &str) -> bool {
-        // Note: RemoveProperty WAL records not yet implemented, but operation works in memory
+        // Log to WAL first
+        #[cfg(feature = "wal")]
+        if let Err(e) = self.log_wal(&WalRecord::RemoveNodeProperty {
+            id,
+            key: key.to_string(),
+        }) {
+            tracing::warn!("Failed to log RemoveNodeProperty to WAL: {}", e);
+        }
+        #[cfg(feature = "wal")]
+        self.commit_wal();
         self.store.remove_node_property(id, key).is_some()
     }
 
@@ -1015,7 +1030,16 @@ impl GrafeoDB {
     ///
     /// Returns true if the property existed and was removed, false otherwise.
     pub fn remove_edge_property(&self, id: grafeo_common::types::EdgeId, key: &str) -> bool {
-        // Note: RemoveProperty WAL records not yet implemented, but operation works in memory
+        // Log to WAL first
+        #[cfg(feature = "wal")]
+        if let Err(e) = self.log_wal(&WalRecord::RemoveEdgeProperty {
+            id,
+            key: key.to_string(),
+        }) {
+            tracing::warn!("Failed to log RemoveEdgeProperty to WAL: {}", e);
+        }
+        #[cfg(feature = "wal")]
+        self.commit_wal();
         self.store.remove_edge_property(id, key).is_some()
     }
 
